@@ -63,6 +63,8 @@ func ValidateRef() {
 	schema, doc, src := buildDoc()
 	errs := validator.Validate(schema, doc)
 	ok, _ := RefValid(schema, doc, VLib{})
+	verifrt.Watch("lib.errors", len(errs))
+	verifrt.Watch("ref.ok", ok)
 	attribute(ok, len(errs) == 0, schema, doc)
 	verifrt.Assert((len(errs) == 0) == ok, "C08.accepts-iff-valid")
 	if len(errs) == 0 {
